@@ -316,6 +316,12 @@ void snoopy_configuration_dtor ()
         CFG->syslog_ident_format_malloced = SNOOPY_FALSE;                 /* Set this to false         - REQUIRED (see above) */
         CFG->syslog_ident_format          = SNOOPY_SYSLOG_IDENT_FORMAT;   /* Set this to default value - REQUIRED (see above) */
     }
+
+
+    /*
+     * Reset all the other (non-malloc()-ed) config settings too
+     */
+    snoopy_configuration_setDefaults(CFG);
 }
 
 
